@@ -192,6 +192,8 @@ class Inliner:
         self.inlined: List[Tuple[str, str]] = []  # (caller, callee) for the evidence
         self.fi_of_node: Dict[int, FuncInfo] = {}
         self._in_try = False
+        self._special: Dict[Tuple[int, int], FuncInfo] = {}
+        self._recv_cls = None  # set while a method is specialised for one concrete receiver class (see specialise)
 
     # .. driver
     def run(self):
@@ -218,6 +220,44 @@ class Inliner:
         finally:
             self.state[id(fi.node)] = "done"
 
+    def specialise(self, fi: FuncInfo, C) -> FuncInfo:
+        """fi as it runs on a receiver of the concrete class C: private helpers / properties that subclasses re-define (template
+        methods) are resolved through C's MRO and inlined.  fi itself when nothing in it is dispatched dynamically."""
+        key = (id(fi.node), id(C))
+        hit = self._special.get(key)
+        if hit is not None:
+            return hit
+        res = fi
+        params = fi.params()
+        if fi.cls is not None and params and not fi.is_static and not fi.is_classmethod and C is not None:
+            dyn = False
+            for n in ast.walk(fi.node):
+                if isinstance(n, ast.Attribute) and isinstance(n.value, ast.Name) and n.value.id == params[0] and \
+                        is_private(n.attr) and isinstance(n.ctx, ast.Load):
+                    tgt = C.lookup(n.attr)
+                    if tgt is not None and tgt.node is not fi.node and n.attr not in self.exclude:
+                        dyn = True
+                        break
+            if dyn:
+                node = copy.deepcopy(fi.node)
+                sfi = FuncInfo(fi.name, fi.qualname, fi.module, node, fi.cls)
+                nested = {n.name: n for n in ast.walk(node)
+                          if n is not node and isinstance(n, (ast.FunctionDef, ast.AsyncFunctionDef))}
+                self._recv_cls = C
+                n_before = len(self.inlined)
+                try:
+                    self.state[id(node)] = "busy"
+                    node.body = self._block(sfi, node.body, nested, 0)
+                finally:
+                    self._recv_cls = None
+                    self.state[id(node)] = "done"
+                if len(self.inlined) > n_before:
+                    from .normal import normalise_function
+                    normalise_function(node)
+                    res = sfi
+        self._special[key] = res
+        return res
+
     # .. resolution
     def _resolve(self, fi: FuncInfo, c: ast.Call, nested) -> Optional[Tuple[FuncInfo, Optional[ast.AST], bool]]:
         """-> (callee, receiver expression bound to the callee's first parameter or None, is closure)."""
@@ -228,13 +268,14 @@ class Inliner:
         if isinstance(f, ast.Attribute) and isinstance(f.value, ast.Name) and is_private(f.attr):
             params = fi.params()
             if fi.cls is not None and not fi.is_static and not fi.is_classmethod and params and f.value.id == params[0]:
-                callee = fi.cls.lookup(f.attr)
+                callee = (self._recv_cls or fi.cls).lookup(f.attr)
                 if callee is None or callee.is_property or callee.is_classmethod:
                     return None
-                for sc in self.prog.subclasses(fi.cls, include_self=False, include_dead=True):
-                    if f.attr in sc.methods or f.attr in sc.class_attrs:
-                        return None  # dynamic dispatch may pick the override
-                if f.attr in fi.cls.class_attrs:
+                if self._recv_cls is None:
+                    for sc in self.prog.subclasses(fi.cls, include_self=False, include_dead=True):
+                        if f.attr in sc.methods or f.attr in sc.class_attrs:
+                            return None  # dynamic dispatch may pick the override
+                if any(f.attr in k.class_attrs for k in (self._recv_cls or fi.cls).mro() if hasattr(k, "class_attrs")):
                     return None
                 if not callee.is_static:
                     recv = f.value
@@ -273,21 +314,87 @@ class Inliner:
         if a.vararg or a.kwarg or any(isinstance(x, ast.Starred) for x in c.args) or any(k.arg is None for k in c.keywords):
             return None
         for d in list(a.defaults) + [x for x in a.kw_defaults if x is not None]:
-            if not isinstance(d, ast.Constant):
+            if not self._default_ok(d, callee, fi):
                 return None
         for x in ast.walk(callee.node):
             if isinstance(x, (ast.Global, ast.Nonlocal, ast.Import, ast.ImportFrom, ast.Await)):
                 return None
-        if not closure and callee.module is not fi.module:
-            own = _own_locals(callee.node)
-            for x in ast.walk(callee.node):
-                if isinstance(x, ast.Name) and x.id not in own and x.id not in _BUILTINS:
-                    if self.prog.resolve_name(callee.module, x.id) != self.prog.resolve_name(fi.module, x.id) or \
-                            self.prog.resolve_name(callee.module, x.id) is None:
-                        return None
+        if not closure and callee.module is not fi.module and not self._free_names_ok(callee, fi):
+            return None
         if not closure:
             self.ensure(callee)
         return callee, recv, closure
+
+    def _resolve_property(self, fi: FuncInfo, node: ast.Attribute) -> Optional[FuncInfo]:
+        """self._x where _x is a read-only private property of the class that no subclass re-defines."""
+        if not (isinstance(node.value, ast.Name) and is_private(node.attr)) or fi.cls is None or fi.is_static or fi.is_classmethod:
+            return None
+        params = fi.params()
+        if not params or node.value.id != params[0]:
+            return None
+        cls = self._recv_cls or fi.cls
+        callee = cls.lookup(node.attr)
+        if callee is None or callee.decorators != ["property"] or callee.node is fi.node:
+            return None
+        if self._recv_cls is None:
+            for sc in self.prog.subclasses(fi.cls, include_self=False, include_dead=True):
+                if node.attr in sc.methods or node.attr in sc.class_attrs:
+                    return None
+        if node.attr in self.exclude or callee.qualname in self.exclude or self.state.get(id(callee.node)) == "busy":
+            return None
+        for x in ast.walk(callee.node):
+            if isinstance(x, (ast.Global, ast.Nonlocal, ast.Import, ast.ImportFrom, ast.Await)):
+                return None
+        if callee.module is not fi.module and not self._free_names_ok(callee, fi):
+            return None
+        self.ensure(callee)
+        return callee
+
+    def _free_names_ok(self, callee: FuncInfo, fi: FuncInfo) -> bool:
+        """The callee's free (module-level) names mean the same in the caller's module.  A name the caller's module does not bind
+        at all is bound there as in the callee's module (the import the extracted code would need)."""
+        own = _own_locals(callee.node)
+        caller_locals = None
+        missing = {}
+        for x in ast.walk(callee.node):
+            if isinstance(x, ast.Name) and x.id not in own and x.id not in _BUILTINS:
+                there = self.prog.resolve_name(callee.module, x.id)
+                if there is None:
+                    return False
+                here = self.prog.resolve_name(fi.module, x.id)
+                if here is None and x.id not in fi.module.bindings and callee.module.bindings.get(x.id) is not None:
+                    if caller_locals is None:
+                        caller_locals = _own_locals(fi.node) | set(fi.params())
+                    if x.id in caller_locals:
+                        return False
+                    missing[x.id] = callee.module.bindings[x.id]
+                    continue
+                if here != there:
+                    return False
+        for k, b in missing.items():
+            fi.module.bindings[k] = b
+        return True
+
+    def _default_ok(self, d: ast.AST, callee: FuncInfo, fi: FuncInfo) -> bool:
+        """A default that means the same when it is evaluated at the call: constants, tuples of them, and module-level names
+        (classes, functions, constants) that both modules resolve alike and that no local of the caller hides."""
+        if isinstance(d, ast.Constant):
+            return True
+        if isinstance(d, ast.UnaryOp) and isinstance(d.op, (ast.USub, ast.UAdd)) and isinstance(d.operand, ast.Constant):
+            return True
+        if isinstance(d, ast.Tuple):
+            return all(self._default_ok(x, callee, fi) for x in d.elts)
+        if isinstance(d, ast.Name):
+            r = self.prog.resolve_name(callee.module, d.id)
+            if r is None and d.id in _BUILTINS:
+                return self.prog.resolve_name(fi.module, d.id) is None and d.id not in _own_locals(fi.node) and \
+                    d.id not in fi.params()
+            if r is None or r[0] not in ("class", "func", "var", "ext"):
+                return False
+            if callee.module is not fi.module and self.prog.resolve_name(fi.module, d.id) != r:
+                return False
+            return d.id not in _own_locals(fi.node) and d.id not in fi.params()
+        return False
 
     # .. argument binding
     def _bind(self, callee: FuncInfo, c: ast.Call, recv, outmap: Optional[Dict[str, str]] = None, dead_after: bool = False
@@ -580,6 +687,30 @@ class Inliner:
                 inl.inlined.append((fi.qualname, callee.qualname))
                 return e
 
+            def visit_Attribute(self, node):
+                node = self.generic_visit(node)
+                if not isinstance(node.ctx, ast.Load):
+                    return node
+                callee = inl._resolve_property(fi, node)
+                if callee is None:
+                    return node
+                body = _body_wo_doc(callee.node)
+                if len(body) != 1 or not isinstance(body[0], ast.Return) or body[0].value is None or \
+                        _contains(body[0].value, (ast.Yield, ast.YieldFrom)):
+                    return node
+                fake = ast.copy_location(ast.Call(func=node, args=[], keywords=[]), node)
+                try:
+                    binds, mapping, subst = inl._bind(callee, fake, node.value)
+                except Unsupported:
+                    return node
+                if binds:
+                    return node
+                e = _Rename({k: v for k, v in mapping.items() if k not in subst}, subst).visit(copy.deepcopy(body[0].value))
+                ast.copy_location(e, node)
+                ast.fix_missing_locations(e)
+                inl.inlined.append((fi.qualname, callee.qualname))
+                return e
+
         t = T()
         for owner, f, i in list(self._exprs_of(s)):
             v = getattr(owner, f)
@@ -807,7 +938,7 @@ class Inliner:
             if x is s or any(x is b_ for b_ in binds):
                 # the caller's own statement, and the bindings (they hold the caller's argument expressions)
                 res.extend(self._stmt(fi, x, nested, depth + 1))
-            elif closure:
+            elif closure or self._recv_cls is not None:
                 for f, lst in list(_stmt_lists(x)):
                     lst[:] = self._block(fi, lst, nested, depth + 1)
                 res.extend(self._stmt(fi, x, nested, depth + 1))
